@@ -14,3 +14,8 @@ def run(ses):
     cacheunit.key_obligations(ses, "C07")
     cacheunit.cli_obligations(ses, "C07")
     cache_e2e.transparency(ses, "C07")
+    # the codec lemma the contracts above rest on (decode(encode(g), rpc) = g with the read-time rpc): its obligations are
+    # generated here too, so that a change inside the encoder / decoder fails this property's check as well
+    from props import c08
+
+    c08.run(ses, "C07")
